@@ -130,6 +130,55 @@ fn word_synth(rng: &mut Rng) -> Vec<Vec<u8>> {
     vec![s1, base, s2]
 }
 
+/// Files made of alternating segments: common lines (identical in every term, hence resolved
+/// hunks) and conflicting lines (different per term), so that the merge has several
+/// conflict hunks with resolved text before, between and after them.
+fn gen_structured(rng: &mut Rng, pools: &mut Vec<&'static str>) -> Vec<Vec<u8>> {
+    let sides = 2 + rng.geometric(2) as usize;
+    let nterms = 2 * sides - 1;
+    let nseg = 1 + rng.usize(5);
+    let start_common = rng.chance(1, 2);
+    let eol_mode = rng.below(4).min(2);
+    let mut lines: Vec<Vec<Vec<u8>>> = vec![vec![]; nterms];
+    for s in 0..nseg {
+        let common = (s % 2 == 0) == start_common;
+        if common {
+            let n = 1 + rng.usize(2);
+            let seg: Vec<Vec<u8>> = (0..n)
+                .map(|k| {
+                    if rng.chance(1, 4) {
+                        gen_line(rng, pools)
+                    } else {
+                        format!("k{s}{k}").into_bytes()
+                    }
+                })
+                .collect();
+            for t in lines.iter_mut() {
+                t.extend(seg.iter().cloned());
+            }
+        } else {
+            for (k, t) in lines.iter_mut().enumerate() {
+                let n = rng.usize(3);
+                for _ in 0..n {
+                    let mut l = gen_line(rng, pools);
+                    if rng.chance(1, 2) {
+                        l.extend_from_slice(format!("{}", k % 3).as_bytes());
+                    }
+                    t.push(l);
+                }
+            }
+        }
+    }
+    lines
+        .iter()
+        .map(|l| {
+            let final_eol = !rng.chance(1, 5);
+            let mode = if rng.chance(1, 8) { rng.below(3) } else { eol_mode };
+            render(l, mode, final_eol, rng)
+        })
+        .collect()
+}
+
 fn detect_crlf(files: &[Vec<u8>]) -> bool {
     let mut flags = vec![];
     for f in files {
@@ -253,6 +302,9 @@ fn main() {
             let files: Vec<Vec<u8>> = if word && rng.chance(1, 12) {
                 pools.push("pool:word-synthesized-markers");
                 word_synth(&mut rng)
+            } else if ctx.rng(i + 2_000_000).chance(1, 3) {
+                pools.push("pool:structured-segments");
+                gen_structured(&mut ctx.rng(i + 3_000_000), &mut pools)
             } else {
                 let sides = 2 + rng.geometric(2) as usize; // 2..4
                 let nterms = 2 * sides - 1;
@@ -303,11 +355,24 @@ fn main() {
                     })
                     .collect()
             };
+            // Outside the property's quantifier (jj strips control characters from the labels it
+            // generates): a label ending in CR. Only with an explicit marker length, so that the
+            // round trip is not required; the model must still agree byte for byte.
+            // (separate generator state, so that the main stream of the case is unchanged)
+            let cr_label = ctx.rng(i + 1_000_000).chance(1, 30);
+            let labels: Vec<String> = if cr_label {
+                pools.push("pool:label-ending-in-cr(outside-quantifier)");
+                (0..files.len()).map(|_| "lab\r".to_string()).collect()
+            } else {
+                labels
+            };
             let conflict_labels = ConflictLabels::from_vec(if labels.len() % 2 == 0 { vec![] } else { labels.clone() });
-            let labels_eff: Vec<String> = if labels.len() % 2 == 0 { vec![] } else { labels };
+            // what the ConflictLabels value holds (a resolved or all-empty label merge is "unlabeled")
+            let labels_eff: Vec<String> = conflict_labels.as_slice().to_vec();
             let chosen = choose_materialized_conflict_marker_len(&single_hunk);
             let (len_opt, len_mode) = match rng.below(10) {
-                0..=5 => (None, "len:chosen"),
+                0..=5 if !cr_label => (None, "len:chosen"),
+                0..=5 => (Some(chosen), "len:explicit>=chosen"),
                 6 | 7 => (Some(chosen + rng.usize(4)), "len:explicit>=chosen"),
                 _ => (Some(1 + rng.usize(12)), "len:explicit-arbitrary"),
             };
@@ -412,6 +477,18 @@ fn main() {
                 ],
             );
             let is_conflict = matches!(merged, MergeResult::Conflict(_));
+            if let MergeResult::Conflict(hs) = &merged {
+                let nconf = hs.iter().filter(|h| !h.is_resolved()).count();
+                if nconf >= 2 {
+                    ctx.count("pool:two-or-more-conflict-hunks");
+                }
+                if hs.iter().any(|h| h.is_resolved()) {
+                    ctx.count("pool:has-resolved-hunk");
+                }
+                if cr_label && parsed.as_ref() != Some(hs) {
+                    ctx.count("observation:label-ending-in-cr-breaks-roundtrip");
+                }
+            }
             let shape = format!(
                 "style={} {}",
                 ["diff", "diff-experimental", "snapshot", "git"][style_n as usize],
